@@ -53,8 +53,7 @@ theorem walkL_pos : ∀ (ks : List HN) (up : List Nat) (s : Nat), (walkL up s ks
   | [], _, _ => by simp
   | k :: ks, up, s => by
     rw [walkL_cons, List.map_append, walk_pos k up s, walkL_pos ks up (s + k.size), sizeL_cons]
-    have := @List.range'_append s k.size (sizeL ks) 1
-    simpa using this
+    simp
 end
 
 theorem walk_length (h : HN) (up : List Nat) (s : Nat) : (h.walk up s).length = h.size := by
